@@ -1,6 +1,7 @@
 package props
 
 import (
+	"fmt"
 	"go/token"
 	"go/types"
 
@@ -434,4 +435,157 @@ func (g *decGraph) decoderSelves(fn *ssa.Function) (starts []*ssa.Function, selv
 		}
 	}
 	return
+}
+
+// passThroughCycles (R1.9 = R19.12): a layer whose DecodeFromBytes publishes
+// its whole input as the payload (it consumes nothing: the 802.11 data
+// sub-type markers) is only harmless while the layer type it names as next is
+// not its own: otherwise the same bytes are decoded by the same decoder for
+// ever (eager: unrecoverable stack overflow; lazy: Layers() never returns).
+func passThroughCycles(c *core.Ctx, r *core.Rule) {
+	p := c.P
+	g := getDecGraph(p)
+	memo := map[*ssa.Function]int{}
+	var passes func(fn *ssa.Function, depth int) bool
+	passes = func(fn *ssa.Function, depth int) bool {
+		if v, ok := memo[fn]; ok {
+			return v == 1
+		}
+		memo[fn] = 0
+		if depth > 4 || len(fn.Blocks) == 0 {
+			return false
+		}
+		var data *ssa.Parameter
+		for _, pa := range fn.Params {
+			if core.IsByteSlice(pa.Type()) {
+				data = pa
+				break
+			}
+		}
+		if data == nil {
+			return false
+		}
+		res := false
+		core.Instrs(fn, func(ins ssa.Instruction) {
+			switch x := ins.(type) {
+			case *ssa.Store:
+				if fa, ok := x.Addr.(*ssa.FieldAddr); ok && core.FieldOfAddr(fa).Name() == "Payload" && x.Val == ssa.Value(data) {
+					res = true
+				}
+			case *ssa.Call:
+				if f := x.Call.StaticCallee(); f != nil && f.Name() == "DecodeFromBytes" && f != fn && len(x.Call.Args) >= 2 && x.Call.Args[1] == ssa.Value(data) {
+					if passes(f, depth+1) {
+						res = true
+					}
+				}
+			}
+		})
+		if res {
+			memo[fn] = 1
+		}
+		return res
+	}
+	n := 0
+	for _, nt := range p.Roots().DecLayerTs {
+		pt := types.NewPointer(nt)
+		dfb := methodOf(p, pt, "DecodeFromBytes")
+		if dfb == nil {
+			continue
+		}
+		// a promoted method is a synthetic wrapper around the embedded type's method
+		impl := dfb
+		for i := 0; i < 3 && impl.Synthetic != "" && len(impl.Blocks) > 0; i++ {
+			var callee *ssa.Function
+			core.Instrs(impl, func(ins ssa.Instruction) {
+				if cc := core.CallCommonOf(ins); cc != nil && cc.StaticCallee() != nil && cc.StaticCallee().Name() == "DecodeFromBytes" {
+					callee = cc.StaticCallee()
+				}
+			})
+			if callee == nil {
+				break
+			}
+			impl = callee
+		}
+		if !passes(impl, 0) {
+			continue
+		}
+		n++
+		// the decoders that stand for this layer type: those registered for what CanDecode returns
+		selves := map[*ssa.Function]bool{dfb: true}
+		selfKnown := false
+		if cd := methodOf(p, pt, "CanDecode"); cd != nil {
+			for impl2, i := cd, 0; i < 3 && impl2 != nil; i++ {
+				if impl2.Synthetic != "" && len(impl2.Blocks) > 0 {
+					var callee *ssa.Function
+					core.Instrs(impl2, func(ins ssa.Instruction) {
+						if cc := core.CallCommonOf(ins); cc != nil && cc.StaticCallee() != nil && cc.StaticCallee().Name() == "CanDecode" {
+							callee = cc.StaticCallee()
+						}
+					})
+					impl2 = callee
+					continue
+				}
+				for _, ret := range core.Returns(impl2) {
+					v := ret.Results[0]
+					if mi, ok := v.(*ssa.MakeInterface); ok {
+						v = mi.X
+					}
+					if a, isLd := core.IsLoad(v); isLd {
+						if gl, isG := a.(*ssa.Global); isG {
+							if f := g.regDec[gl]; f != nil {
+								selves[f] = true
+								selfKnown = true
+							}
+						}
+					}
+				}
+				break
+			}
+		}
+		nx := &decNext{set: map[*ssa.Function]bool{}}
+		if nlt := methodOf(p, pt, "NextLayerType"); nlt != nil {
+			for impl2, i := nlt, 0; i < 3 && impl2 != nil; i++ {
+				if impl2.Synthetic != "" && len(impl2.Blocks) > 0 {
+					var callee *ssa.Function
+					core.Instrs(impl2, func(ins ssa.Instruction) {
+						if cc := core.CallCommonOf(ins); cc != nil && cc.StaticCallee() != nil && cc.StaticCallee().Name() == "NextLayerType" {
+							callee = cc.StaticCallee()
+						}
+					})
+					impl2 = callee
+					continue
+				}
+				for _, ret := range core.Returns(impl2) {
+					g.resolve(ret.Results[0], nx, 0)
+				}
+				break
+			}
+		} else {
+			nx.unknown = true
+		}
+		yes := false
+		for f := range nx.set {
+			if selves[f] {
+				yes = true
+			}
+		}
+		known := selfKnown && !nx.unknown
+		key := "layers." + nt.Obj().Name() + "/pass-through-next"
+		pos := p.Pos(dfb.Pos())
+		if dfb.Synthetic != "" {
+			pos = p.TypePos(nt.Obj())
+		}
+		switch {
+		case yes:
+			r.Violate(key, pos, "this layer hands its whole input on as payload and the layer type it names as next is decoded by this same layer: any non-empty input is decoded by the same decoder for ever — eager decoding recurses until the stack overflows (which no recover can catch), lazy decoding never finishes", nil)
+		case known:
+			r.OK(key, pos, "the next decoders were resolved and none of them is this layer")
+		default:
+			r.Undecided(key, pos, "the next decoders (or this layer's own registered decoder) are not all resolved")
+		}
+	}
+	c.Counts["pass_through_layers"] = n
+	if n < 3 {
+		r.Missing("layers/pass-through layers", fmt.Sprintf("only %d found", n))
+	}
 }
